@@ -383,9 +383,11 @@ def _run(chk: core.Check, enc: Enc, tier: str) -> None:
                 elif r == "sat":
                     a, b = m[n1].as_long(), m[n2].as_long()
                     sa, sb = real_to_pv(a), real_to_pv(b)
+                    malformed = parse_us(sa) is None or parse_us(sb) is None
                     chk.counterexample(nm, "z3", secs, sig="order-not-preserved",
-                                       what=f"{a} <= {b} ns but {sa!r} > {sb!r}",
-                                       replay={"tz": list(TZ), "kind": "order", "n": [a, b]}, reproduced=(sa > sb))
+                                       what=(f"{a} <= {b} ns but {sa!r} > {sb!r}" if sa > sb else
+                                             f"{a} <= {b} ns are rendered as {sa!r} and {sb!r}: not a well-formed PV timestamp"),
+                                       replay={"tz": list(TZ), "kind": "order", "n": [a, b]}, reproduced=(sa > sb or malformed))
                     break
                 else:
                     chk.unknown(nm, "z3", secs, f"solver answered {r}")
@@ -400,6 +402,7 @@ def _run(chk: core.Check, enc: Enc, tier: str) -> None:
 
     # ---------------- (c) backward and (d) round trip -----------------------
     back_ok = True
+    d_unknown = [0]
     new_phase()
     for (klo, khi) in int_partitions(0, K_MAX):
         if skip[0]:
@@ -449,7 +452,7 @@ def _run(chk: core.Check, enc: Enc, tier: str) -> None:
                 chk.unknown(nm + ".validate", "z3", 0.0,
                             f"encoding ({enc_ns}) and real function ({real_ns}) disagree at k={kv}: stdlib contract wrong")
         # (d) PV -> OTel -> PV
-        if back_ok and fwd_ok:
+        if back_ok and fwd_ok and d_unknown[0] < 3:
             nm = f"d.roundtrip[k in 2^{klo.bit_length()-1 if klo else 0}]"
             s2 = enc.to_pv(ctx, ns)
             bad = z3.Or([z3.And(g, t != k) for g, t, _, _ in s2.us.cases])
@@ -464,7 +467,8 @@ def _run(chk: core.Check, enc: Enc, tier: str) -> None:
                                    what=f"PV->OTel->PV maps {canonical(kv)!r} to {got!r}",
                                    replay={"tz": list(TZ), "kind": "roundtrip", "k": kv}, reproduced=(got != canonical(kv)))
             else:
-                chk.unknown(nm, "z3", secs, f"solver answered {r} / layout preserved: {shape_ok}")
+                d_unknown[0] += 1
+                orig_unknown(nm, "z3", secs, f"solver answered {r} / layout preserved: {shape_ok}")
     chk.samples.append({"query": "c.backward", "meaning": "exists k in binade: to_ns(PV string of k) != 1000k (unsat expected)"})
     chk.extra["validation_runs"] = validated
     chk.states = len(chk.obligations)
@@ -538,7 +542,7 @@ def replay_file(path: str) -> int:
     if kind == "roundtrip":
         kv = rec["k"]; got = real_to_pv(real_to_ns(canonical(kv))); print(got, canonical(kv)); return int(got != canonical(kv))
     if kind == "order":
-        a, b = rec["n"]; sa, sb = real_to_pv(a), real_to_pv(b); print(sa, sb); return int(sa > sb)
+        a, b = rec["n"]; sa, sb = real_to_pv(a), real_to_pv(b); print(sa, sb); return int(sa > sb or parse_us(sa) is None or parse_us(sb) is None)
     if kind == "to_pv_pair":
         a, b = rec["k"]; sa, sb = real_to_pv(1000 * a), real_to_pv(1000 * b); print(sa, sb); return int(sa == sb)
     return 2
